@@ -194,7 +194,12 @@ func Prune(db objects.Store, rs ref.Store, opts *PruneOptions) (err error) {
 		return err
 	}
 
-	// remove orphaned commits
+	// remove orphaned commits, descendants before their ancestors so that an
+	// interruption never leaves behind a commit whose parent is gone
+	commitsToRemove, err = sortDescendantsFirst(db, commitsToRemove)
+	if err != nil {
+		return err
+	}
 	return runWithPbar(opts.PruneCommitsPbar, func(pbarAdd func()) (err error) {
 		for _, sum := range commitsToRemove {
 			err = objects.DeleteCommit(db, sum)
@@ -205,4 +210,52 @@ func Prune(db objects.Store, rs ref.Store, opts *PruneOptions) (err error) {
 		}
 		return nil
 	})
+}
+
+// sortDescendantsFirst orders commits so that every commit comes before its parents
+func sortDescendantsFirst(db objects.Store, commits [][]byte) ([][]byte, error) {
+	pending := map[string]struct{}{}
+	for _, sum := range commits {
+		pending[string(sum)] = struct{}{}
+	}
+	type frame struct {
+		sum     []byte
+		parents [][]byte
+		next    int
+	}
+	ancestorsFirst := make([][]byte, 0, len(commits))
+	for _, root := range commits {
+		if _, ok := pending[string(root)]; !ok {
+			continue
+		}
+		delete(pending, string(root))
+		com, err := objects.GetCommit(db, root)
+		if err != nil {
+			return nil, err
+		}
+		stack := []*frame{{sum: root, parents: com.Parents}}
+		for len(stack) > 0 {
+			fr := stack[len(stack)-1]
+			if fr.next < len(fr.parents) {
+				p := fr.parents[fr.next]
+				fr.next++
+				if _, ok := pending[string(p)]; ok {
+					delete(pending, string(p))
+					pc, err := objects.GetCommit(db, p)
+					if err != nil {
+						return nil, err
+					}
+					stack = append(stack, &frame{sum: p, parents: pc.Parents})
+				}
+				continue
+			}
+			ancestorsFirst = append(ancestorsFirst, fr.sum)
+			stack = stack[:len(stack)-1]
+		}
+	}
+	n := len(ancestorsFirst)
+	for i := 0; i < n/2; i++ {
+		ancestorsFirst[i], ancestorsFirst[n-1-i] = ancestorsFirst[n-1-i], ancestorsFirst[i]
+	}
+	return ancestorsFirst, nil
 }
